@@ -144,6 +144,11 @@ func (r *Run) dirArg(c Cmd) string {
 		d := filepath.Join(r.W.Proj, "a", "b", "c")
 		os.MkdirAll(d, 0o755)
 		return d
+	case "ergoslash":
+		rel, _ := filepath.Rel(cwd, filepath.Join(r.W.Proj, ".ergo"))
+		return rel + "/"
+	case "absergoslash":
+		return filepath.Join(r.W.Proj, ".ergo") + "/"
 	case "dot":
 		// the start directory itself, spelled relatively: discovery has to
 		// climb from wherever the command was started
@@ -416,8 +421,11 @@ func (r *Run) DoCmd(c Cmd) *Proc {
 		}
 	}
 	post := r.observe()
-	logChanged := !bytes.Equal(pre.LogBytes, post.LogBytes)
-	if c.Op == "prune" && !c.Yes && logChanged {
+	// (an unterminated fragment at the end - the trace of a killed append -
+	// is not content: readers ignore it, and a writer may cut it off even if
+	// it then fails)
+	logChanged := !bytes.Equal(settledBytes(pre.LogBytes), settledBytes(post.LogBytes))
+	if c.Op == "prune" && !c.Yes && !bytes.Equal(pre.LogBytes, post.LogBytes) {
 		r.viol("C09", "dry-run-wrote", "log-bytes", "prune without --yes changed the log (%d -> %d bytes)", len(pre.LogBytes), len(post.LogBytes))
 	}
 
@@ -1098,6 +1106,14 @@ func (r *Run) DoFile(f *FileOp) {
 		os.Remove(full)
 		syscall.Mkfifo(full, 0o644)
 	}
+}
+
+// settledBytes: the log without an unterminated last fragment.
+func settledBytes(b []byte) []byte {
+	if n := bytes.LastIndexByte(b, '\n'); n >= 0 {
+		return b[:n+1]
+	}
+	return nil
 }
 
 func (r *Run) logPath() string {
